@@ -39,7 +39,33 @@ struct Elem {
     return *this;
   }
 };
-using Queue = babylon::ConcurrentBoundedQueue<Elem>;
+// The queue is instantiated with a scheduling interface that only watches: while a timed exclusive pop is in
+// progress on this thread, every wait it asks for must end by the pop's deadline (a wait requested beyond the
+// deadline returns late whenever nothing wakes it). Independent of scheduling delay, unlike a return-time bound.
+// tl_timed: -1 = no timed pop in progress; 0 = in progress, no wait requested yet; > 0 = the pop's own deadline: the
+// clock value it last read before its FIRST wait plus the duration it asked for. Every later wait of the same pop
+// (after an early or spurious wake-up) is judged at the moment the pop last read the clock (so scheduling delay between
+// reading the clock and calling the wait does not count): that clock value plus the requested duration must not lie
+// beyond the deadline. A wait requested beyond it returns late whenever nothing wakes it.
+thread_local int64_t tl_timed = -1;
+struct WatchSched : public babylon::SchedInterface {
+  static int futex_wait(uint32_t* futex, uint32_t val, const struct ::timespec* timeout) noexcept {
+    if (tl_timed >= 0) {
+      if (timeout == nullptr) dsched::fail("timed-pop", "a timed exclusive pop asked for an unbounded futex wait");
+      int64_t req = (int64_t)timeout->tv_sec * 1000000000LL + timeout->tv_nsec;
+      if (req < 0) req = 0;
+      int64_t until = dsched::last_clock_read_ns() + req;
+      if (tl_timed == 0) {
+        tl_timed = until > 0 ? until : 1;
+      } else if (until > tl_timed + 1000) {
+        dsched::fail("timed-pop", "after a wake-up a timed exclusive pop asked to sleep %ld ns, i.e. until %ld ns after its own deadline",
+                     (long)req, (long)(until - tl_timed));
+      }
+    }
+    return babylon::SchedInterface::futex_wait(futex, val, timeout);
+  }
+};
+using Queue = babylon::ConcurrentBoundedQueue<Elem, WatchSched>;
 using Iter = Queue::Iterator;
 
 enum Mode { M_FUTEX = 0, M_SPIN = 1, M_COMP = 2 };
@@ -359,11 +385,14 @@ void do_pop_ops(int thread, const ThreadPlan& plan) {
         // first callback starts (or at the return when nothing was delivered)
         int64_t t_wait_end = -1;
         auto cb = [&](Iter b, Iter e) {
+          tl_timed = -1;
           if (t_wait_end < 0) t_wait_end = dsched::now_ns();
           for (; b != e; ++b) rec_pop(drain(*b), pos++);
         };
+        tl_timed = 0;
         if (op.wake) r = q.template try_pop_n_exclusively_until<true>(cb, (size_t)n, &to);
         else r = q.template try_pop_n_exclusively_until<false>(cb, (size_t)n, &to);
+        tl_timed = -1;
         if (t_wait_end < 0) t_wait_end = dsched::now_ns();
         int64_t dt = t_wait_end - t0;
         int64_t limit = (int64_t)op.timeout_us * 1000 + 2000000 + 200000;
